@@ -392,6 +392,7 @@ pub fn check_received(name: &str, sent: &[Value], recvs: &[RecvRes], expect_clos
                 }
                 i += 1;
             }
+            RecvRes::Retained => {}
             RecvRes::Closed => {
                 if i != sent.len() {
                     return Err(("lost-message".into(), format!("{}: receiver reports Closed after {} of {} messages", name, i, sent.len())));
